@@ -7,6 +7,7 @@
 package safehtml
 
 import (
+	"bytes"
 	"fmt"
 	"regexp"
 	"sort"
@@ -155,7 +156,7 @@ func trustedResourceURLFormat(format string, args map[string]string) (TrustedRes
 		// segments or URL components.
 		return safehtmlutil.QueryEscapeURL(argVal)
 	})
-	if err == nil && dotDotSegmentPattern.MatchString(ret) && !dotDotSegmentPattern.MatchString(format) {
+	if err == nil && hasDotDotSegment(ret) && !hasDotDotSegment(format) {
 		// Arguments that are harmless on their own can still form the ".." dot-segment together
 		// with their neighbours, e.g. "." next to "." or "e." after "%2".
 		return TrustedResourceURL{}, fmt.Errorf(`arguments for format string %q must not form ".." with adjacent text`, format)
@@ -194,6 +195,23 @@ func startsWithTwoSlashes(s string) bool {
 // safehtmlutil.URLContainsDoubleDotSegment it does not match two dots inside a longer segment
 // such as "app..js".
 var dotDotSegmentPattern = regexp.MustCompile(`(?i)(?:^|[/\\])(?:\.|%2e)(?:\.|%2e)(?:$|[/\\?#])`)
+
+// hasDotDotSegment reports whether a URL parser finds ".." as a complete path segment in url.
+// URL parsers remove TAB, LF and CR from their input before anything else.
+func hasDotDotSegment(url string) bool {
+	return dotDotSegmentPattern.MatchString(withoutTabAndNewline(url))
+}
+
+// withoutTabAndNewline returns s without its TAB, LF and CR characters.
+func withoutTabAndNewline(s string) string {
+	var b bytes.Buffer
+	for i := 0; i < len(s); i++ {
+		if c := s[i]; c != '\t' && c != '\n' && c != '\r' {
+			b.WriteByte(c)
+		}
+	}
+	return b.String()
+}
 
 // trustedResourceURLFormatMarkerPattern matches markers in TrustedResourceURLFormat
 // format strings.
@@ -234,7 +252,7 @@ func TrustedResourceURLAppend(t TrustedResourceURL, s string) (TrustedResourceUR
 		return TrustedResourceURL{}, fmt.Errorf(`cannot append %q to TrustedResourceURL %q: the appended string must not contain ".."`, s, t)
 	}
 	ret := t.str + safehtmlutil.QueryEscapeURL(s)
-	if dotDotSegmentPattern.MatchString(ret) && !dotDotSegmentPattern.MatchString(t.str) {
+	if hasDotDotSegment(ret) && !hasDotDotSegment(t.str) {
 		// A "." appended to a URL that ends in "." or "%2e" forms the ".." dot-segment.
 		return TrustedResourceURL{}, fmt.Errorf(`cannot append %q to TrustedResourceURL %q: the result must not contain ".."`, s, t)
 	}
